@@ -12,7 +12,7 @@
    The generated schema is checked in Properties/C09Gen.v. *)
 From Coq Require Import String ZArith List Bool Lia Permutation.
 From EC Require Import Lib.Obs Lib.Outcome Model.Wire Model.ProtoSchema Model.ProtoTyped Gen.Schema.
-From EC Require Import Proofs.WireProofs Proofs.ProtoSchemaProofs Proofs.ProtoTypedProofs.
+From EC Require Import Proofs.WireProofs Proofs.ProtoSchemaProofs Proofs.ProtoCanonProofs Proofs.ProtoTypedProofs.
 Import ListNotations.
 Open Scope list_scope.
 Open Scope Z_scope.
@@ -129,11 +129,42 @@ Theorem C09_timeoutqc_map_sorted : forall l, sorted _ _ cmp_timeout (tmap_of_lis
 Proof. exact tmap_of_list_sorted. Qed.
 Print Assumptions C09_timeoutqc_map_sorted.
 
-(* ---- full statement (not proved in full; see the `partial` note of the evidence) ---- *)
-(* For every modelled type: the bytes written by encode are read back to the same dynamic
-   message, so that decode_T (encode_T v) = v follows from the round trips above.  Proved: the
-   dynamic-message level (theorems above) and canonical_raw on every reading; not proved: that
-   the reference reading of the canonical bytes of a sorted well-formed message is that message. *)
+(* ---- 4. lossless at the byte level ---- *)
+
+(* For schemas whose repeated fields are all length-delimited (no packed encoding: every production
+   schema, see C09Gen.v): the canonical bytes of a well-formed value (entries in field order, values
+   in the range of their kind, sub-messages below 4 GiB) are read back as exactly that value, and
+   are a fixed point of canonical_raw. *)
+Theorem C09_denote_canon : forall Sc, schema_wf Sc = true -> schema_canonical_ok Sc = true ->
+  schema_unpacked Sc = true ->
+  forall n mi d, dmsg_ok Sc n mi d -> denote Sc mi (canon Sc mi d) = Some d.
+Proof. exact denote_canon. Qed.
+Print Assumptions C09_denote_canon.
+
+Theorem C09_canonical_idempotent : forall Sc, schema_wf Sc = true -> schema_canonical_ok Sc = true ->
+  schema_unpacked Sc = true ->
+  forall n mi d, dmsg_ok Sc n mi d -> canonical_raw Sc mi (canon Sc mi d) = Ok (canon Sc mi d).
+Proof. exact canonical_idempotent. Qed.
+Print Assumptions C09_canonical_idempotent.
+
+(* decode (encode v) = v through the bytes, for any type whose build produces a well-formed message
+   and whose read inverts build on dynamic messages (section 3) *)
+Theorem C09_typed_roundtrip_bytes : forall Sc, schema_wf Sc = true -> schema_canonical_ok Sc = true ->
+  schema_unpacked Sc = true ->
+  forall (A : Type) (build : A -> dmsg) (read : dmsg -> res A) (v : A) n mi,
+    dmsg_ok Sc n mi (build v) -> read (build v) = Ok v ->
+    match denote Sc mi (canon Sc mi (build v)) with Some d => read d | None => err end = Ok v.
+Proof.
+  intros Sc H1 H2 H3 A build read v n mi Hok Hrt.
+  rewrite (denote_canon Sc H1 H2 H3 n mi (build v) Hok). exact Hrt.
+Qed.
+Print Assumptions C09_typed_roundtrip_bytes.
+
+(* ---- full statement; what is not proved is listed in the `partial` note of the evidence ---- *)
+(* Proved above: every clause for every schema / the ten modelled types, except that [dmsg_ok] of the
+   built message (a size bound below 4 GiB and plain sortedness) is a premise of
+   C09_typed_roundtrip_bytes rather than derived per type, and that schemas WITH packed repeated
+   scalars (none in production) are covered by C09_canonical_normalises only. *)
 Definition C09_full : Prop :=
   forall (Sc : ProtoSchema.schema) (mi : nat) (d : dmsg),
     schema_canonical_ok Sc = true -> schema_wf Sc = true ->
@@ -172,3 +203,25 @@ Example C09_nonvacuous_timeout_qc :
   read_timeout_qc pool_sig_ok (build_timeout_qc q) = Ok q /\
   tmap_of_list [(t2, [false; true; true]); (t1, [true; false])] = tq_map q.
 Proof. vm_compute. split; reflexivity. Qed.
+
+(* a concrete View is well formed for the generated schema: the premise of C09_typed_roundtrip_bytes
+   is satisfiable and the round trip through bytes computes *)
+Example C09_nonvacuous_bytes_roundtrip :
+  let v := {| v_genesis := repeat 7 32; v_number := 300; v_epoch := 1 |} in
+  dmsg_ok schema 2 idx_zksync_roles_validator_ViewV2 (build_view v) /\
+  match denote schema idx_zksync_roles_validator_ViewV2 (canon schema idx_zksync_roles_validator_ViewV2 (build_view v)) with
+  | Some d => read_view d
+  | None => err
+  end = Ok v.
+Proof.
+  split; [|vm_compute; reflexivity].
+  cbn [dmsg_ok]. eexists. split; [reflexivity|]. split.
+  - cbn. repeat split; left; lia.
+  - repeat constructor.
+    + eexists. split; [reflexivity|]. cbn. split.
+      * eexists. split; [reflexivity|]. split; [cbn; repeat split; left; lia|].
+        repeat constructor. eexists. split; [reflexivity|]. vm_compute. reflexivity.
+      * vm_compute. reflexivity.
+    + eexists. split; [reflexivity|]. vm_compute. split; [discriminate | reflexivity].
+    + eexists. split; [reflexivity|]. vm_compute. split; [discriminate | reflexivity].
+Qed.
